@@ -1,17 +1,19 @@
 (* Driver entry for the designer front-end model (C04, C05, C15). *)
 From Coq Require Import List String Ascii Arith Bool.
 From Coq Require Import ZArith.
-From PC Require Import Base.Sexp Comp.Syntax Design.Designer Design.DesignerProofs SSM.Contract SSM.Search Run.RComp.
+From PC Require Import Base.Sexp Comp.Syntax Design.Designer Design.DesignerProofs Design.TemplateProofs SSM.Contract SSM.Search Run.RComp.
 Import ListNotations.
 Local Open Scope string_scope.
 
 Definition s_ochar (o : option ascii) : sexp :=
   match o with Some c => At (String c EmptyString) | None => At "None" end.
 
-(* the hypothesis of the C04/C15 theorems, checked on the graph seeded for this document *)
+(* the hypothesis of the C04/C05/C15 theorems (graph_ok: every link endpoint initialised, the template
+   table keyed by exactly the initialised nodes, every initial template a code), checked on the
+   graph seeded for this document *)
 Definition closed_flag (ls : list pline) (so : bool) : bool :=
   match load_spec ls pspec0 with
-  | OK p => match seed p so with OK (_, g) => graph_closed g | Err _ => true end
+  | OK p => match seed p so with OK (_, g) => graph_ok g | Err _ => true end
   | Err _ => true
   end.
 
@@ -22,7 +24,7 @@ Definition run_design (req : sexp) : sexp :=
       | Some ls, Some so =>
           match design_arrays ls so with
           | DOk eq wc st => Li [At "ok"; sL (sO sN) eq; sL (sO sN) wc; sL s_ochar st; sB (closed_flag ls so)]
-          | DOver => Li [At "over"]
+          | DOver => Li [At "over"; sB (closed_flag ls so)]
           | DErr k => Li [At "err"; At k]
           end
       | _, _ => bad_request
